@@ -155,12 +155,56 @@ def gen_features(rng, arms, dim=None):
             feats.append(base[i])
     return feats
 
+def gen_two_stage_warm(rng, with_final=True, label=None):
+    """fit leaving arms cold -> warm_start -> partial_fit that observes a warm-started arm -> add_arm -> (warm_start
+    in which the new arm is nearest to that arm): a warm-started arm that has since been observed is a trained arm
+    and a legal donor"""
+    kind = rng.choice(["greedy", "ucb", "softmax", "popularity", "thompson"])
+    n_arms = rng.randint(3, 5)
+    arms = rng.sample(range(0, 12), n_arms)
+    style = "binary" if kind == "thompson" else rng.choice(["nonneg_dyadic", "binary", "smallint"] if kind != "popularity" else ["nonneg_dyadic", "binary"])
+    draw = reward_stream(rng, style)
+    lp = (kind, None) if kind == "thompson" else ((kind, gen_hp(rng, kind)) if kind in ("greedy", "ucb", "softmax") else (kind,))
+    n_cold = rng.randint(1, n_arms - 2)
+    cold = rng.sample(arms, n_cold)
+    hot = [a for a in arms if a not in cold]
+    def batch(pool, n):
+        ds = [rng.choice(pool) for _ in range(n)]
+        for a in pool:
+            ds[rng.randrange(n)] = a if rng.random() < 0.8 else ds[0]
+        return ds, [draw() for _ in range(n)]
+    ops = []
+    ds, rs = batch(hot, rng.randint(len(hot) + 2, 14)); ops.append(("fit", ds, rs, None))
+    dim = rng.randint(2, 3)
+    feat = {a: [float(rng.randint(1, 5)) for _ in range(dim)] for a in arms}
+    keys = list(arms); rng.shuffle(keys)
+    ops.append(("warm", keys, [feat[a] for a in keys], 1.0))
+    # observe (some of) the warm-started arms
+    seen = rng.sample(cold, rng.randint(1, len(cold)))
+    ds, rs = batch(seen + ([rng.choice(hot)] if rng.random() < 0.5 else []), rng.randint(2, 8)); ops.append(("pfit", ds, rs, None))
+    new = 12 + rng.randint(0, 3)
+    ops.append(("add", new, None))
+    cur = arms + [new]
+    if with_final:
+        x = rng.choice(seen)
+        feat[new] = [v * rng.choice([1.0, 2.0]) for v in feat[x]] if rng.random() < 0.7 else [float(rng.randint(1, 5)) for _ in range(dim)]
+        keys = list(cur); rng.shuffle(keys)
+        ops.append(("warm", keys, [feat[a] for a in keys], rng.choice([1.0, 1.0, 0.5, 0.75])))
+        ops.append(("pexp", None)); ops.append(("pred", None))
+    return {"arms": arms, "lp": lp, "np": None, "seed": rng.randint(0, 2**31 - 2), "ops": ops,
+            "label": label or rng.choice(["int", "str", "float", "int"]), "mode": "exact", "reward_style": style}
+
 def gen_warm_op(rng, cur):
     keys = list(cur)
     if rng.random() < 0.5:
         rng.shuffle(keys)
     q = rng.choice([0.0, 0.25, 0.5, 0.75, 1.0, rng.random()])
-    return ("warm", keys, gen_features(rng, keys), float(q))
+    feats = gen_features(rng, keys)
+    if rng.random() < 0.3:
+        # exact distance ties between several arms: one-hot category features
+        dim = rng.randint(2, 3)
+        feats = [[1.0 if j == (i % dim) else 0.0 for j in range(dim)] for i in range(len(keys))]
+    return ("warm", keys, feats, float(q))
 
 # ---------------------------------------------------------------- contextual cases
 LIN_KINDS = ["lingreedy", "linucb", "lints"]
